@@ -166,44 +166,57 @@ def env_quantified(terms):
     return out
 
 
-def fuel(terms, depth, limit=150):
+def fuel(terms, depth, limit=150, goal=None, hyp_depth=None, hyp_limit=80):
     """definitional instances for the applications in terms, `depth` rounds (each round also instantiates the
-    valuation-quantified hypotheses at the ground valuations that have appeared)"""
+    valuation-quantified hypotheses at the ground valuations that have appeared).
+
+    With `goal` given the unfolding is goal-directed: the applications that descend from the (negated) goal and from
+    the valuation instances are unfolded `depth` rounds (budget `limit`); those that occur only in the hypotheses
+    `hyp_depth` rounds (default 1, budget `hyp_limit`): the big specs in the hypotheses (wt, ...) otherwise eat the budget"""
     insts = []
     done = set()
-    frontier = list(terms)
-    envq = env_quantified(terms)
+    envq = env_quantified(terms if goal is None else list(terms) + [goal])
     env_seen = set()
     env_done = set()
-    for _ in range(depth):
-        new = []
-        if envq:
-            for g in _ground_env_terms(frontier, env_seen):
-                for q, mk in envq:
-                    k = (q.get_id(), g.get_id())
-                    if k in env_done:
-                        continue
-                    env_done.add(k)
-                    inst = mk(g)
-                    if inst is None:
-                        continue
-                    insts.append(inst)
-                    new.append(inst)
-        frontier = frontier + new
-        for app in applications(frontier):
-            if app.get_id() in done:
-                continue
-            done.add(app.get_id())
-            e = instance(app)
-            if e is None:
-                continue
-            insts.append(e)
-            new.append(e)
-            if len(insts) >= limit:
-                return insts
-        if not new:
-            break
-        frontier = new
+
+    def rounds(frontier, depth, limit, with_env):
+        count = 0
+        for _ in range(depth):
+            new = []
+            if envq and with_env:
+                for g in _ground_env_terms(frontier, env_seen):
+                    for q, mk in envq:
+                        k = (q.get_id(), g.get_id())
+                        if k in env_done:
+                            continue
+                        env_done.add(k)
+                        inst = mk(g)
+                        if inst is None:
+                            continue
+                        insts.append(inst)
+                        new.append(inst)
+            frontier = frontier + new
+            for app in applications(frontier):
+                if app.get_id() in done:
+                    continue
+                done.add(app.get_id())
+                e = instance(app)
+                if e is None:
+                    continue
+                insts.append(e)
+                new.append(e)
+                count += 1
+                if count >= limit:
+                    return
+            if not new:
+                break
+            frontier = new
+
+    if goal is None:
+        rounds(list(terms), depth, limit, True)
+    else:
+        rounds([goal], depth, limit, True)
+        rounds(list(terms), 1 if hyp_depth is None else hyp_depth, hyp_limit, True)
     return insts
 
 
